@@ -26,8 +26,7 @@ m("c02-swap-network", ["C02", "C04"], SC, "    return single_qubit_gate_cancelle
 # ---- C03
 m("c03-no-inverse", ["C03"], SC, "    return _get_preparation_circuit_modulo_phase(stabilizer, connectivity).inverse()", "    return _get_preparation_circuit_modulo_phase(stabilizer, connectivity)")
 m("c03-sign-dependent", ["C03"], SC, "    return _get_preparation_circuit_modulo_phase(stabilizer, connectivity).inverse()", "    return get_preparation_circuit(stabilizer, connectivity).inverse()")
-m("c03-cancel-s-pairs", ["C03", "C01"], SC, "from qiskit.circuit.library import HGate\n\n\nsingle_qubit_gate_canceller = PassManager([InverseCancellation([HGate()])])",
-  "from qiskit.circuit.library import HGate, SGate\n\n\nsingle_qubit_gate_canceller = PassManager([InverseCancellation([HGate(), (SGate(), SGate())])])")
+m("c03-layer-not-inverted", ["C03", "C01"], SC, "    layer_circuit = local_clifford_layer_to_circuit(layer).inverse()", "    layer_circuit = local_clifford_layer_to_circuit(layer)", note="only the order-3 layers (HS / SH) differ from their inverse")
 m("c03-layer-in-front", ["C03", "C01"], SC, "    circuit = circuit_info.parse_circuit().compose(layer_circuit)  # type: ignore", "    circuit = circuit_info.parse_circuit().compose(layer_circuit, front=True)  # type: ignore")
 # ---- C04
 m("c04-cost-column", ["C04", "C17"], "data/stabilizer4-linear.txt", "9:2:2:", "9:3:2:", line=10)
@@ -37,9 +36,9 @@ m("c04-cx-pair-appended", ["C04"], SC, "    return single_qubit_gate_canceller.r
 m("c05-longer-line", ["C05"], "data/stabilizer3-linear.txt", None, None, line=4, note="append cz0,1 cz0,1 and cost/depth +2")
 m("c05-product-class-cz", ["C05"], "data/stabilizer5-T.txt", None, None, line=0, note="class 0 with redundant CZ")
 # ---- C06
-m("c06-count-constant", ["C06"], "lc_classes.py", "        if len(count3weight2Bitstrings) == 0:\n            return LCClass6(LCClass6.EntanglementStructure.Star4,", "        if len(count3weight2Bitstrings) <= 1:\n            return LCClass6(LCClass6.EntanglementStructure.Star4,")
+m("c06-line6-canonical-order", ["C06"], "lc_classes.py", "            if pair1[0] > pair2[0]:\n                pair1, pair2 = pair2, pair1\n                middle_qubits.reverse()", "            if pair1[0] > pair2[0]:\n                pair1, pair2 = pair2, pair1", note="middle qubits no longer swapped together with the pairs: some Line6 members are misfiled")
 m("c06-from-1122", ["C06", "C19"], "linear_index.py", "    return 3*i + d - c - 1\n", "    return 3*i + d - c - 1 if i != 7 else 3*i + (d - c) % 3\n")
-m("c06-rep-graph", ["C06", "C17", "C19"], "lc_classes.py", "        if self.type == LCClass6.EntanglementStructure.Pair:\n            graph.add_edge(*self.data.get(2, 0))", "        if self.type == LCClass6.EntanglementStructure.Pair:\n            graph.add_edge(self.data.get(2, 0)[0], (self.data.get(2, 0)[1] + 1) % 6 if self.id() == 9 else self.data.get(2, 0)[1])")
+m("c06-rep-graph", ["C06", "C17"], "lc_classes.py", "        if self.type == LCClass6.EntanglementStructure.Pair:\n            graph.add_edge(*self.data.get(2, 0))", "        if self.type == LCClass6.EntanglementStructure.Pair:\n            graph.add_edge(self.data.get(2, 0)[0], (self.data.get(2, 0)[1] + 1) % 6 if self.id() == 9 else self.data.get(2, 0)[1])")
 m("c06-entangled-lt", ["C06", "C15"], "stabilizer.py", "                if qubit_pauli != pauli:\n                    return True", "                if qubit_pauli < pauli:\n                    return True")
 # ---- C07
 m("c07-input-mutated", ["C07"], SC, "    optimized_circuit = _get_preparation_circuit_modulo_phase(Stabilizer(circuit), connectivity)\n    return rotate_stabilizer_into_state(optimized_circuit, circuit, inplace=True)",
@@ -87,7 +86,6 @@ m("c18-no-pivot-swap", ["C18"], "f2_algebra.py", "            temp = copy.deepco
 m("c18-nullspace-index", ["C18"], "f2_algebra.py", "                vec[j] = A_rref[k, i]", "                vec[j] = A_rref[min(j, A_rref.shape[0] - 1), i]")
 m("c18-basis-change-inverse", ["C18"], "f2_algebra.py", "                    M_inv = mat_mul(M_inv, trf_add_row(h, i, m))", "                    M_inv = mat_mul(trf_add_row(h, i, m), M_inv)")
 # ---- C19
-m("c19-compress-loop", ["C19"], "graph.py", "        n = self.num_vertices\n        code = 0\n        index = 0\n        for i in range(self.num_vertices - 1):\n            for j in range(i + 1, self.num_vertices):\n                if self.has_edge(i, j):\n                    code |= (1 << index)\n                index += 1",
-  "        n = self.num_vertices\n        code = 0\n        index = 0\n        for i in range(self.num_vertices - 1):\n            for j in range(i + 1, self.num_vertices):\n                if self.has_edge(i, j):\n                    code |= (1 << index)\n                    index += 1 if n < 6 else 0\n                index += 1 if n >= 6 or not self.has_edge(i, j) else 0")
+m("c19-compress-loop", ["C19"], "graph.py", "        for i in range(self.num_vertices - 1):\n            for j in range(i + 1, self.num_vertices):\n                if self.has_edge(i, j):\n                    code |= (1 << index)", "        for i in range(self.num_vertices - 1):\n            for j in range(i + 1, self.num_vertices):\n                if self.has_edge(i, j) and not (n == 6 and index == 14 and code & 1):\n                    code |= (1 << index)", note="last edge bit dropped for some 6-vertex graphs")
 m("c19-diagonal", ["C19"], "graph.py", "        self.adjacency_matrix ^= col.T @ col\n        for i in range(self.num_vertices):\n            self.adjacency_matrix[i, i] = 0", "        self.adjacency_matrix ^= col.T @ col\n        for i in range(self.num_vertices - 1):\n            self.adjacency_matrix[i, i] = 0")
 m("c19-from-222", ["C19", "C06"], "linear_index.py", "    return 3*(b - 1) + pairs[1][1] - pairs[1][0] - 1", "    return 3*(b - 1) + (pairs[1][1] - pairs[1][0] - 1) % 2 * 1 + (pairs[1][1] - pairs[1][0] - 1) // 2 * 2 if b != 5 else 3*(b - 1) + 2 - (pairs[1][1] - pairs[1][0] - 1)")
